@@ -1,7 +1,7 @@
 (* EscapeEncFacts.v -- proofs about the C13 model (EscapeEnc.v): hex formatting, the escape is matched
    whole by the tokenizer's unicodesub regex, escape_resolves, escapecss_decodes, token values,
    the @charset rule comes first and is what the css codec reads back, the ATKEYWORD refutation.   *)
-From CssV Require Import Base Regex RegexFacts Gen.TokTables Tokenizer TokenizerFacts Gen.EscapeConsts EscapeEnc.
+From CssV Require Import Base Regex RegexFacts Gen.TokTables Tokenizer TokenizerFacts Gen.EscapeConsts Gen.Quote EscapeEnc.
 
 (* ------------------------------------------------------------------ hex digits *)
 Definition hstep (acc c : N) : N := match hexval c with Some d => N.add (N.mul acc 16) d | None => acc end.
@@ -393,29 +393,51 @@ Proof.
   unfold run_history. simpl. apply IH; [apply assign_one_charset|apply assign_ok]; assumption.
 Qed.
 
-Definition ascii_name (n : str) : bool := forallb (fun c => N.ltb c 128 && negb (N.eqb c 34)) n.
+(* an encoding name as the charset rule's setter accepts them: ASCII, and none of the characters helper.string
+   rewrites (quote, backslash, newline, CR, FF) *)
+Definition name_char (c : N) : bool :=
+  N.ltb c 128 && negb (N.eqb c 34) && negb (N.eqb c 92) && negb (N.eqb c 10) && negb (N.eqb c 13) && negb (N.eqb c 12).
+Definition ascii_name (n : str) : bool := forallb name_char n.
+
+Lemma name_char_facts c : name_char c = true ->
+  (c < 128)%N /\ N.eqb c 34 = false /\ N.eqb c 92 = false /\ N.eqb c 10 = false /\ N.eqb c 13 = false /\ N.eqb c 12 = false.
+Proof.
+  unfold name_char. rewrite !andb_true_iff, !negb_true_iff, N.ltb_lt. tauto.
+Qed.
+
+(* helper.string (the regenerated three-state writer) leaves such a name alone and puts it between quotes *)
+Lemma hstring_name n : ascii_name n = true -> hstring n = 34%N :: n ++ [34%N].
+Proof.
+  intros H. unfold hstring. change str_fmt_pre with [34%N]. change str_fmt_post with [34%N]. cbn [app]. f_equal. f_equal.
+  induction n as [|c r IH]; [reflexivity|]. simpl in H. apply andb_true_iff in H as [Hc Hr].
+  destruct (name_char_facts c Hc) as (_ & H34 & H92 & H10 & H13 & H12).
+  cbn [hstring_loop]. unfold str_bs. rewrite H92. unfold Gen.Quote.str_plain, str_quote. rewrite H34.
+  unfold str_newlines. cbn [str_assoc]. rewrite (N.eqb_sym 10 c), (N.eqb_sym 13 c), (N.eqb_sym 12 c), H10, H13, H12.
+  cbn [app]. now rewrite (IH Hr).
+Qed.
 
 Lemma until_quote_name n rest : ascii_name n = true -> until_quote (n ++ 34%N :: rest) = Some n.
 Proof.
   induction n as [|c n IH]; intros H; [reflexivity|].
-  simpl in H. apply andb_true_iff in H as [Hc Hn]. apply andb_true_iff in Hc as [_ Hq].
-  simpl. destruct (N.eqb c 34); [discriminate|]. now rewrite (IH Hn).
+  simpl in H. apply andb_true_iff in H as [Hc Hn]. destruct (name_char_facts c Hc) as (_ & Hq & _).
+  simpl. rewrite Hq. now rewrite (IH Hn).
 Qed.
 
 (* the serializer's at-charset text plus helper.string's opening quote is exactly the prefix the codec looks for *)
-Lemma serializer_prefix_is_codec_prefix : charset_fmt_pre ++ string_quote = codec_charset_prefix.
+Lemma serializer_prefix_is_codec_prefix : charset_fmt_pre ++ str_fmt_pre = codec_charset_prefix.
 Proof. reflexivity. Qed.
 
-Lemma charset_text_shape n : charset_text n = codec_charset_prefix ++ n ++ 34%N :: charset_fmt_post.
+Lemma charset_text_shape n : ascii_name n = true ->
+  charset_text n = codec_charset_prefix ++ n ++ 34%N :: charset_fmt_post.
 Proof.
-  unfold charset_text, py_string. rewrite <- serializer_prefix_is_codec_prefix.
-  change string_quote with [34%N]. rewrite <- !app_assoc. reflexivity.
+  intros Hn. unfold charset_text, py_string. rewrite (hstring_name n Hn), <- serializer_prefix_is_codec_prefix.
+  change str_fmt_pre with [34%N]. cbn [app]. rewrite <- !app_assoc. reflexivity.
 Qed.
 
 Lemma detect_charset_text n rest : ascii_name n = true ->
   detect_charset (charset_text n ++ rest) = Some n.
 Proof.
-  intros Hn. unfold detect_charset. rewrite charset_text_shape, <- app_assoc.
+  intros Hn. unfold detect_charset. rewrite (charset_text_shape n Hn), <- app_assoc.
   replace (starts codec_charset_prefix (codec_charset_prefix ++ (n ++ 34%N :: charset_fmt_post) ++ rest)) with true
     by (symmetry; apply starts_spec; eauto).
   rewrite skipn_exact, <- app_assoc. cbn [app]. apply until_quote_name. exact Hn.
@@ -437,11 +459,11 @@ Section Transparent.
 
   Lemma charset_text_ascii n : ascii_name n = true -> forallb (fun c => N.ltb c 128) (charset_text n) = true.
   Proof.
-    intros Hn. unfold charset_text, py_string. rewrite !forallb_app.
+    intros Hn. rewrite (charset_text_shape n Hn), !forallb_app. cbn [forallb].
     replace (forallb (fun c => N.ltb c 128) n) with true.
     - reflexivity.
     - symmetry. apply forallb_forall. intros x Hx. unfold ascii_name in Hn. rewrite forallb_forall in Hn.
-      apply Hn in Hx. now apply andb_true_iff in Hx as [Hx _].
+      apply Hn, name_char_facts in Hx. apply N.ltb_lt. tauto.
   Qed.
 
   (* "begins with an @charset rule naming it whenever one is set", and the css codec reads that name back *)
